@@ -13,6 +13,7 @@ pub mod c12;
 pub mod c13;
 pub mod c14;
 pub mod c15;
+pub mod c16;
 pub mod c20;
 
 use crate::session::Session;
@@ -35,6 +36,7 @@ pub fn run(s: &mut Session, ctx: &Ctx, prop: &str) -> bool {
         "C13" => c13::run(s, ctx),
         "C14" => c14::run(s, ctx),
         "C15" => c15::run(s, ctx),
+        "C16" => c16::run(s, ctx),
         "C20" => c20::run(s, ctx),
         _ => return false,
     }
